@@ -8,9 +8,16 @@ command -v tlc >/dev/null
 command -v go >/dev/null
 tmp=$(mktemp -d)
 trap 'rm -rf "$tmp"' EXIT
-for d in specs/*/; do
-  fam=$(basename "$d")
-  [ "$fam" = common ] && continue
+# only the families of integrated (claimed) properties must parse; others are work in progress
+fams=$(python3 - <<'EOF'
+import json,re
+for pid in json.load(open("tools/integrated.json")):
+    m=re.search(r'^FAM\s*=\s*"([^"]+)"', open("props/%s.py"%pid.lower()).read(), re.M)
+    if m: print(m.group(1))
+EOF
+)
+for fam in $(echo "$fams" | sort -u); do
+  d=specs/$fam
   mkdir -p "$tmp/$fam"
   cp "$d"/*.tla "$tmp/$fam/" 2>/dev/null || true
   cp specs/common/*.tla "$tmp/$fam/" 2>/dev/null || true
